@@ -186,7 +186,7 @@ func (t *tdesc) line0(o op) string {
 	case "ED":
 		return "ES"
 	case "P", "A":
-		return fmt.Sprintf("%s %s %s %d", o.code, o.mode, t.keyTok(o.k), o.v)
+		return fmt.Sprintf("%s %s %s %s", o.code, o.mode, t.keyTok(o.k), valTok(o.v))
 	case "AN":
 		return fmt.Sprintf("AN %s %d", t.keyTok(o.k), o.v)
 	case "G", "GL", "CK", "R":
@@ -225,10 +225,7 @@ func parseLine(t *tdesc, l string) (op, bool) {
 	}
 	pk := func(s string) key {
 		if t.kkind == 's' {
-			if s == "~" {
-				return key{}
-			}
-			return key{s: s}
+			return key{s: tokStr(s)}
 		}
 		i, _ := strconv.ParseInt(s, 10, 64)
 		return key{i: i}
@@ -239,7 +236,11 @@ func parseLine(t *tdesc, l string) (op, bool) {
 			return o, false
 		}
 		o.mode, o.k = w[1], pk(w[2])
-		o.v, _ = strconv.ParseInt(w[3], 10, 64)
+		if w[3] == "nil" {
+			o.v = nilV
+		} else {
+			o.v, _ = strconv.ParseInt(w[3], 10, 64)
+		}
 	case "AN":
 		if len(w) != 3 {
 			return o, false
@@ -713,7 +714,8 @@ func keyPool(t *tdesc, r *vh.Rng) []key {
 	var cand []key
 	switch t.kkind {
 	case 's':
-		base := []string{"", "a", "b", "aa", "Aa", "BB", "AaAa", "BBBB", "AaBB", "z", "0", "key", "A_long_key_0123456789"}
+		base := []string{"", "a", "b", "aa", "Aa", "BB", "AaAa", "BBBB", "AaBB", "z", "0", "key", "A_long_key_0123456789",
+			"é", "日本語", "\xff\xfe", "a b", "k,=v", "\x00", "%25", "Aa\x80"}
 		base = append(base, strCollide...)
 		for _, s := range base {
 			cand = append(cand, key{s: s})
@@ -776,8 +778,18 @@ func keyPool(t *tdesc, r *vh.Rng) []key {
 
 func genVal(t *tdesc, r *vh.Rng) int64 {
 	switch t.vkind {
-	case 'f':
-		return r.Range(-1000, 1000)
+	case 'f': // the bit pattern of a float32: small and large integers, fractions, ±0, ±Inf, NaN, denormals, random
+		switch r.Intn(10) {
+		case 0:
+			return int64(r.PickInt([]int{0, 0x80000000, 0x7f800000, 0xff800000, 0x7fc00000, 1, 0x007fffff, 0x7f7fffff, 0x4b800000, 0xcb800000}))
+		case 1:
+			return int64(uint32(r.U64()))
+		case 2, 3:
+			return int64(math.Float32bits(float32(r.Range(-1000, 1000)) / 8))
+		case 4:
+			return int64(math.Float32bits(float32(r.Range(-1<<40, 1<<40))))
+		}
+		return int64(math.Float32bits(float32(r.Range(-1000, 1000))))
 	case 'i':
 		if r.Chance(20) {
 			return r.Pick64([]int64{0, math.MaxInt32, math.MinInt32, -1, 1})
@@ -793,6 +805,9 @@ func genVal(t *tdesc, r *vh.Rng) int64 {
 	}
 	if r.Chance(10) {
 		return r.Pick64([]int64{0, math.MaxInt64, math.MinInt64})
+	}
+	if r.Chance(6) {
+		return nilV // a stored nil interface value
 	}
 	return r.Range(-50, 50)
 }
@@ -869,6 +884,9 @@ func genOps(t *tdesc, r *vh.Rng, avail []string, n int, nInst int) []op {
 				o.v = vals[r.Intn(len(vals))]
 			} else {
 				o.v = genVal(t, r)
+			}
+			if o.v == nilV {
+				o.v = 0 // ContainsValue(nil) panics on purpose ("Value is Nil")
 			}
 		case "SM":
 			o.n = r.PickInt([]int{0, 1, 2, 3, 7, 7, 3, 2, -1})
@@ -1181,6 +1199,9 @@ func main() {
 		for i := 0; i < growthPer; i++ {
 			r := rng.Fork()
 			c := genCtor(t, r, po.capOK)
+			if t.kkind != 'o' {
+				c.hmode = 0 // only selects the hash of the driver's CodeModel (arbitrary); a constant hash makes 2700-key chains quadratic there
+			}
 			jobs = append(jobs, job{[]ctor{c}, genGrowth(t, r, availSet, growthN), 64})
 		}
 		res := make([]*histRes, len(jobs))
@@ -1240,6 +1261,9 @@ func main() {
 			}
 			if len(lines) == 0 {
 				return
+			}
+			if d := os.Getenv("VERIF_DUMP_LINES"); d != "" {
+				os.WriteFile(fmt.Sprintf("%s/chunk%d.txt", d, w), []byte(strings.Join(lines, "\n")+"\n"), 0o644)
 			}
 			ans, err := vh.RunDriver(env.Driver, lines)
 			if err != nil {
